@@ -6,6 +6,9 @@ let p_move (g, s) = ps "["; p_q g; ps ","; p_snap s; ps "]"
 let p_level (tr, (lab, (q, qd))) = ps "["; p_list p_move tr; ps ","; p_list p_nat lab; ps ","; p_q q; ps ","; p_q qd; ps "]"
 let p_result (lv, (ci, (q, (qd, qs)))) =
   ps "["; p_list p_level lv; ps ","; p_list p_nat ci; ps ","; p_q q; ps ","; p_q qd; ps ","; p_q qs; ps "]"
+(* draw stream of modularity_probtune_und_sign: 0 <q> = random_sample() value, 1 <k> = randint(n) value *)
+let next_draw () = if next_int () = 0 then DSample (next_q ()) else DInt (next_nat ())
+let p_step (u, (r, mb)) = ps "["; p_nat u; ps ","; p_bool r; ps ","; p_nat mb; ps "]"
 let dispatch = function
   | "finetune_und" -> let w = next_mat next_q in let g = next_q () in let ci = next_list next_z in let mv = next_moves () in
       p_result (run_finetune_und w g ci mv)
@@ -27,6 +30,20 @@ let dispatch = function
   | "community_louvain" -> let w = next_mat next_q in let g = next_q () in let kind = next_nat () in
       let ci = next_list next_z in let lv = next_list next_moves in
       p_result (run_community_louvain w g kind ci lv)
+  | "probtune" -> let w = next_mat next_q in let g = next_q () in let qt = next_nat () in let ci = next_list next_z in
+      let p = next_q () in let perm = next_list next_nat in let ds = next_list next_draw in
+      let orc = next_list (fun () -> next_opt next_nat) in
+      (match run_probtune w g qt ci p perm ds orc with
+       | None -> ps "null"
+       | Some (tr, (ci', (q, qd))) -> ps "["; p_list p_step tr; ps ","; p_list p_nat ci'; ps ","; p_q q; ps ","; p_q qd; ps "]")
+  (* deciders of the hypotheses of the whole-run theorems: [symmetric input, positive total weight, all moves good] *)
+  | "louvain_und_good" -> let w = next_mat next_q in let g = next_q () in let lv = next_list next_moves in
+      ps "["; p_bool (sym_rowsb w); ps ","; p_bool (pos_totalb w); ps ","; p_bool (run_louvain_und_good w g lv); ps "]"
+  | "louvain_sign_good" -> let w = next_mat next_q in let g = next_q () in let qt = next_nat () in let lv = next_list next_moves in
+      ps "["; p_bool (sym_rowsb w); ps ","; p_bool (pos_totalb w); ps ","; p_bool (run_louvain_sign_good w g qt lv); ps "]"
+  | "community_louvain_good" -> let w = next_mat next_q in let g = next_q () in let kind = next_nat () in
+      let ci = next_list next_z in let lv = next_list next_moves in
+      ps "["; p_bool (sym_rowsb w); ps ","; p_bool (pos_totalb w); ps ","; p_bool (run_community_louvain_good w g kind ci lv); ps "]"
   | "retained" -> let qs = next_list next_q in p_list p_q (run_retained qs)
   | f -> failwith ("unknown function " ^ f)
 let () = main dispatch
